@@ -8,6 +8,7 @@ import LuaHelper.Driver.ScopeOps
 import LuaHelper.Driver.HovOps
 import LuaHelper.Driver.PatOps
 import LuaHelper.Driver.OutlineOps
+import LuaHelper.Driver.ModOps
 open LuaHelper
 
 def dispatch (cmd : String) (args : List String) : String :=
@@ -36,6 +37,9 @@ def dispatch (cmd : String) (args : List String) : String :=
   | some r => r
   | none =>
   match OutlineOps.handle cmd args with
+  | some r => r
+  | none =>
+  match ModOps.handle cmd args with
   | some r => r
   | none => "bad-op"
 
